@@ -353,6 +353,71 @@ def run(project, chk):
                   message=f"`{norm_text(x)}` in the preview is not dominated by any test of {name} (guards: {sorted(t for t, v in lits)[:4]}): for inputs whose formatted result is a string (hex, rgba tuple, names) "
                           f"the unpack raises ValueError -- show=True raises where the plain call returns")
 
+    # ---------------------------------------------------------------- R13: the raw return value never reaches the console preview unexamined
+    chk.rule("R13", "make_readable's preview: between a definition of to_console's tuned colour as the raw return value and the call, every path renders a hex form or "
+                    "re-reads the result (Color(<result>)): the raw value is an hsl() / rgb() string for those spellings, which rich cannot parse -- show=True would raise")
+    for knode in kcfg.nodes:
+        for e in node_exprs(knode):
+            for c in ast.walk(e):
+                if not (isinstance(c, ast.Call) and ksc.resolve_call(c) == TOC):
+                    continue
+                a13 = bind_args(project.func(TOC), c).get("tuned_fg")
+                if not isinstance(a13, ast.Name):
+                    continue
+                var = a13.id
+
+                def examines(n13):
+                    if n13.kind == "cond" and n13.ast is not None and any(isinstance(h, ast.Attribute) and h.attr == "is_valid" and isinstance(h.value, ast.Name) and h.value.id != "self" for h in ast.walk(n13.ast)):
+                        return True     # the validity of a re-read colour is tested here: on its false branch there is nothing better to show
+                    for e13 in node_exprs(n13):
+                        for h in ast.walk(e13):
+                            if isinstance(h, (ast.Call, ast.JoinedStr)) and hex_kind(h) and not of_own_pair(h):
+                                return True
+                            if isinstance(h, ast.Call) and (ksc.resolve_call(h) or "").split(".__init__")[0].endswith("colors.Color"):
+                                return True
+                    return False
+                S13 = {n13.id for n13 in kcfg.nodes if examines(n13)}
+                defs13 = [n13 for n13 in kcfg.nodes if n13.kind == "stmt" and isinstance(n13.ast, ast.Assign) and var in node_stores(n13)]
+                handler_nodes = set()
+                for t13 in ast.walk(mk.node):
+                    if isinstance(t13, ast.Try):
+                        for h13 in t13.handlers:
+                            handler_nodes.update(id(x) for b in h13.body for x in ast.walk(b))
+                returned13 = {x.id for r13 in ast.walk(mk.node) if isinstance(r13, ast.Return) and r13.value is not None for x in ast.walk(r13.value) if isinstance(x, ast.Name)}
+
+                for _i13 in range(3):       # ... and what the returned tuple is unpacked into / built from (`tuned, ok = result`, `result = (formatted, ok)`)
+                    for a13_ in ast.walk(mk.node):
+                        if isinstance(a13_, ast.Assign) and len(a13_.targets) == 1:
+                            t13_, v13_ = a13_.targets[0], a13_.value
+                            if isinstance(t13_, ast.Tuple) and isinstance(v13_, ast.Name) and v13_.id in returned13:
+                                returned13 |= {x.id for x in t13_.elts if isinstance(x, ast.Name)}
+                            if isinstance(t13_, ast.Name) and t13_.id in returned13 and isinstance(v13_, ast.Tuple):
+                                returned13 |= {x.id for x in v13_.elts if isinstance(x, ast.Name)}
+
+                def is_raw(v13):     # the returned colour itself (or its str()): anything else is not this rule's business
+                    if isinstance(v13, ast.Call) and isinstance(v13.func, ast.Name) and v13.func.id == "str" and len(v13.args) == 1:
+                        v13 = v13.args[0]
+                    return isinstance(v13, ast.Name) and v13.id in returned13
+                for d13 in defs13:
+                    if d13.id in S13 or id(d13.ast) in handler_nodes or not is_raw(d13.ast.value):
+                        continue
+                    lits13 = _cl12(kG12.get(d13.id))
+                    if any(t.endswith(".is_valid") and v is False for t, v in lits13):
+                        continue        # the re-read result was looked at and is not a colour: nothing better to show
+                    kills = {n13.id for n13 in defs13 if n13.id != d13.id}
+                    seen13, stack13 = set(), [d for d, _l in kcfg.succ[d13.id]]
+                    while stack13:
+                        n_ = stack13.pop()
+                        if n_ in seen13 or n_ in S13 or n_ in kills:
+                            continue
+                        seen13.add(n_)
+                        stack13.extend(d for d, _l in kcfg.succ[n_])
+                    chk.check(knode.id not in seen13, "R13", mk.short, norm_text(d13.ast), project.loc(mk.module, d13.ast),
+                              f"`{norm_text(d13.ast)}` reaches to_console only through a hex rendering or a re-read of the result",
+                              how=f"{len(S13)} examining node(s); reachability from the definition avoiding them and later definitions of {var}",
+                              message=f"`{norm_text(d13.ast)}` reaches to_console's tuned colour along a path that neither renders a hex form nor re-reads the result: for hsl() (and other functional) "
+                                      f"spellings the preview hands rich a string it cannot parse and show=True raises where the plain call returns")
+
     # ---------------------------------------------------------------- R9: the re-read colour is rendered when (and only when) it is valid
     chk.rule("R9", "make_readable's preview takes the hex rendering of the re-read result on the path where that colour is valid, never on the path where it is not "
                    "(to_hex() of an invalid colour is None; a valid hsl() result left unrendered makes rich raise)")
